@@ -145,7 +145,7 @@ pub fn execute(h: &History, want: &str, rep: &mut Report) -> Option<Violation> {
     let mut g = call!(GlideProcessor::new(fs), 0, None);
     let mut cur: Option<Eff> = None;
     let mut ambiguous = false; // a request landed on the edge of the dead band: the time in effect is unknown
-    let (mut in_min, mut in_max, mut m_abs) = (0.0f64, 0.0f64, 1e-30f64);
+    let (mut in_min, mut in_max, mut m_abs) = (0.0f64, 0.0f64, 0.0f64);
     let mut carry = 0.0f64;
     let mut y_prev = 0.0f64;
     let mut x_prev: Option<f32> = None;
@@ -160,6 +160,9 @@ pub fn execute(h: &History, want: &str, rep: &mut Report) -> Option<Violation> {
     let mut step_from: f64 = 0.0;
     let mut step_clean = false; // the hold began from a settled output under a known time that has not changed since
     let mut settime_in_hold = false;
+    let mut step_pts_by_decade = [0u64; 7];
+    let mut step_pts_tiny = 0u64;
+    let mut pole_by_decade = [0u64; 7];
     let mut env: f64 = 0.0; // RC envelope of the error in the running segment
     let mut env_settled = false;
 
@@ -179,10 +182,10 @@ pub fn execute(h: &History, want: &str, rep: &mut Report) -> Option<Violation> {
                         }
                     }
                 };
-                let was_mid = x_prev.is_some() && (y_prev - x_prev.unwrap() as f64).abs() > 0.05 * m_abs;
+                let was_mid = x_prev.is_some() && m_abs > 0.0 && (y_prev - x_prev.unwrap() as f64).abs() > 0.05 * m_abs;
                 match honoured {
                     Some(true) => {
-                        carry += cur.map(|c| EPS2 * m_abs / (1.0 - c.a_hi)).unwrap_or(0.0);
+                        carry += cur.map(|c| (EPS2 * m_abs + 4.0e-45) / (1.0 - c.a_hi)).unwrap_or(0.0);
                         let e = eff(*t, fs64);
                         cur = Some(e);
                         c_honoured += 1;
@@ -202,7 +205,7 @@ pub fn execute(h: &History, want: &str, rep: &mut Report) -> Option<Violation> {
                             let c = cur.unwrap();
                             let d = ((*t as f64) - (c.t as f64)).abs();
                             if d > 0.2 {
-                                carry += EPS2 * m_abs / (1.0 - c.a_hi.max(pole(10.0, fs64)));
+                                carry += (EPS2 * m_abs + 4.0e-45) / (1.0 - c.a_hi.max(pole(10.0, fs64)));
                                 cur = Some(eff(*t, fs64));
                                 ambiguous = false;
                                 c_honoured += 1;
@@ -247,7 +250,8 @@ pub fn execute(h: &History, want: &str, rep: &mut Report) -> Option<Violation> {
                         Some(c) => (c.a_hi.max(pole(10.0, fs64)), false),
                         None => (pole(100.0 / fs64, fs64), false),
                     };
-                    let res = EPS2 * m_abs / (1.0 - a_hi);
+                    // relative f32 resolution at the largest magnitude seen, plus the absolute quantum of the subnormal range
+                    let res = (EPS2 * m_abs + 4.0e-45) / (1.0 - a_hi);
                     carry *= a_hi;
                     let tol = res + carry;
                     let over = (y - in_max).max(in_min - y);
@@ -326,7 +330,7 @@ pub fn execute(h: &History, want: &str, rep: &mut Report) -> Option<Violation> {
                             }
                             // ---------------- C14 step-response points ----------------
                             let step = hold_x - step_from;
-                            if step_clean && !settime_in_hold && c.specified && step.abs() > 1e3 * tol {
+                            if step_clean && !settime_in_hold && c.specified && step.abs() > 20.0 * tol {
                                 let nt = (c.t as f64).min(10.0) * fs64;
                                 let n_full = nt.ceil() as u64;
                                 let n_tenth = (nt / 10.0).ceil() as u64;
@@ -334,6 +338,11 @@ pub fn execute(h: &History, want: &str, rep: &mut Report) -> Option<Violation> {
                                 let slack = tol / step.abs();
                                 if hold_n == n_tenth {
                                     c_step_pts += 1;
+                                    let dec = (nt.max(1.0).log10().floor() as usize).min(6);
+                                    step_pts_by_decade[dec] += 1;
+                                    if step.abs() < 1e-30 {
+                                        step_pts_tiny += 1;
+                                    }
                                     rep.max("glide.covered_at_t_over_10.max", cov);
                                     rep.max("glide.covered_at_t_over_10.neg_min", -cov);
                                     if !(cov >= 0.40 - slack && cov <= 0.55 + slack) {
@@ -352,10 +361,11 @@ pub fn execute(h: &History, want: &str, rep: &mut Report) -> Option<Violation> {
                             if c.specified && (c.t as f64) <= 1.0 && (c.t as f64) * fs64 <= 1e5 {
                                 let a = c.a_hi;
                                 let win = ((0.7f64).ln() / a.ln()).ceil().max(4.0) as u64;
-                                if seg_n == 2 + win && seg_e2.abs() > 1e4 * tol && e.abs() > 1e3 * tol && e / seg_e2 > 0.0 {
+                                if seg_n == 2 + win && seg_e2.abs() > 400.0 * tol && e.abs() > 200.0 * tol && e / seg_e2 > 0.0 {
                                     let a_est = (e / seg_e2).powf(1.0 / win as f64);
                                     let err = ((1.0 - a_est) - (1.0 - a)).abs() / (1.0 - a);
                                     c_pole_est += 1;
+                                    pole_by_decade[(((c.t as f64) * fs64).max(1.0).log10().floor() as usize).min(6)] += 1;
                                     if err > max_pole_err {
                                         max_pole_err = err;
                                     }
@@ -382,6 +392,13 @@ pub fn execute(h: &History, want: &str, rep: &mut Report) -> Option<Violation> {
     rep.count("glide.fastest_settle_checks", c_fast_settled);
     rep.count("glide.pole_estimates", c_pole_est);
     rep.count("glide.step_response_points", c_step_pts);
+    for d in 2..6 {
+        rep.count(&format!("glide.step_response_points.t_fs_1e{}", d), step_pts_by_decade[d]);
+        if d < 5 {
+            rep.count(&format!("glide.pole_estimates.t_fs_1e{}", d), pole_by_decade[d]);
+        }
+    }
+    rep.count("glide.step_response_points.step_below_1e-30", step_pts_tiny);
     rep.count("glide.histories", 1);
     rep.max("glide.max_range_excess_over_resolution", max_over);
     rep.max("glide.max_settle_error_over_resolution", max_settle);
@@ -775,6 +792,14 @@ pub fn run(ctx: &Ctx, prop: &str) -> Report {
         rep.floor("glide.fastest_settle_checks", 200);
         rep.floor("glide.pole_estimates", 1000);
         rep.floor("glide.step_response_points", 200);
+        // the eligibility conditions of the step and pole checks must not silently exclude a region
+        for d in 2..6 {
+            rep.floor(&format!("glide.step_response_points.t_fs_1e{}", d), if d == 5 { 3 } else { 20 });
+        }
+        for d in 2..5 {
+            rep.floor(&format!("glide.pole_estimates.t_fs_1e{}", d), 50);
+        }
+        rep.floor("glide.step_response_points.step_below_1e-30", 10);
         rep.floor("glide.set_time.ignored_in_dead_band", 200);
     }
     rep
